@@ -1,1 +1,156 @@
 import EoNVerif.Model.Gillespie
+import EoNVerif.Model.GillespieLaw
+import EoNVerif.Spec.Chain
+import EoNVerif.Proofs.ListDict
+import EoNVerif.Proofs.Gillespie
+/-!
+C01 / C02 — target statements for the model of `Gillespie_SIR` / `Gillespie_SIS`
+(`P.sis` selects the variant; every theorem is for both).
+-/
+namespace Gillespie
+
+/- `Gillespie.WF` (well-formed undirected simple contact network with non-negative symmetric weights) and
+`Gillespie.Inv` (the bookkeeping invariant) are defined, unchanged, in `EoNVerif/Proofs/Gillespie.lean`. -/
+
+set_option linter.unusedVariables false in -- `hr` is not needed
+/-- the initial state is built without KeyError and satisfies the invariant -/
+theorem init_inv (P : GParams) (h : WF P) (infs recs : List Node) (tmin : Rat)
+    (hi : infs.Nodup) (him : ∀ u ∈ infs, u ∈ P.nodes) (hr : ∀ u ∈ recs, u ∈ P.nodes)
+    (hd : ∀ u ∈ infs, u ∉ recs) (hsis : P.sis = true → recs = []) :
+    ∃ s, init P infs recs tmin = some s ∧ Inv P s ∧ s.status = initStatus infs recs :=
+  init_inv' P h infs recs tmin hi him hd hsis
+
+/-- recovery of an enabled node: no KeyError, invariant preserved, status changes as in the chain -/
+theorem applyRec_inv (P : GParams) (h : WF P) (s : GState) (hs : Inv P s) (u : Node) (t : Rat)
+    (hu : u ∈ s.inf.items) :
+    ∃ s', applyRec P s u t = some s' ∧ Inv P s' ∧ s'.status = Chain.apply P s.status (.recover u) :=
+  applyRec_inv' P h s hs u t hu
+
+/-- transmission along an enabled I–S link -/
+theorem applyTrans_inv (P : GParams) (h : WF P) (s : GState) (hs : Inv P s) (u v : Node) (t : Rat)
+    (huv : (u, v) ∈ s.links.items) :
+    ∃ s', applyTrans P s u v t = some s' ∧ Inv P s' ∧ s'.status = Chain.apply P s.status (.transmit u v) :=
+  applyTrans_inv' P h s hs u v t huv
+
+/-- the selection step only ever returns enabled events, for every tape -/
+theorem pick_enabled (P : GParams) (s : GState) (fuel : Nat) (ts ts' : TapeSt) (e : GEvent)
+    (hp : pick P s fuel ts = .ok (e, ts')) :
+    match e with
+    | .recover u => u ∈ s.inf.items
+    | .transmit u v => (u, v) ∈ s.links.items := by
+  have := pick_enabled' P s fuel ts ts' e hp
+  cases e <;> exact this
+
+/-- **invariant for every tape prefix**: whatever the draws, every state the loop reaches satisfies `Inv`
+(in particular the model's KeyError state is unreachable from an `Inv` state) -/
+theorem loop_inv (P : GParams) (h : WF P) (tmax : ERat) (cfuel fuel : Nat) (s s' : GState) (t : ERat)
+    (ts ts' : TapeSt) (hs : Inv P s) (hl : loop P tmax cfuel fuel s t ts = .ok (s', ts')) : Inv P s' :=
+  loop_inv' P h tmax cfuel fuel s s' t ts ts' hs hl
+
+theorem loop_no_keyerror (P : GParams) (h : WF P) (tmax : ERat) (cfuel fuel : Nat) (s : GState) (t : ERat)
+    (ts : TapeSt) (hs : Inv P s) : loop P tmax cfuel fuel s t ts ≠ .error "KeyError" :=
+  loop_no_keyerror' P h tmax cfuel fuel s t ts hs
+
+set_option linter.unusedVariables false in -- `hr` is not needed
+theorem run_inv (P : GParams) (h : WF P) (infs recs : List Node) (tmin : Rat) (tmax : ERat) (fuel cfuel : Nat)
+    (hi : infs.Nodup) (him : ∀ u ∈ infs, u ∈ P.nodes) (hr : ∀ u ∈ recs, u ∈ P.nodes)
+    (hd : ∀ u ∈ infs, u ∉ recs) (hsis : P.sis = true → recs = []) (ts ts' : TapeSt) (s' : GState)
+    (hrun : run P infs recs tmin tmax fuel cfuel ts = .ok (s', ts')) : Inv P s' :=
+  run_inv' P h infs recs tmin tmax fuel cfuel hi him hd hsis ts ts' s' hrun
+
+/-- **clock**: the rate handed to `expovariate` is the total rate of the chain in the current status -/
+theorem clock_eq (P : GParams) (h : WF P) (s : GState) (hs : Inv P s) :
+    totalRate P s = Chain.totalRate P s.status :=
+  clock_eq' P h s hs
+
+/-- **jump law (recovery)**: an infectious node `u` is the next to recover with probability
+`γ w_u / total · (1-ρ^k)` where `ρ^k` is the probability that the rejection sampler is still running after `k`
+rounds (`ρ < 1`, C16) -/
+theorem jump_law_rec (P : GParams) (h : WF P) (s : GState) (hs : Inv P s) (hpos : 0 < totalRate P s)
+    (u : Node) (hu : u ∈ s.inf.items) (k : Nat) (hk : 0 < k) :
+    Dist.mass (pickDist P s k) (fun o => o == some (GEvent.recover u)) =
+      Chain.nodeRate P u / Chain.totalRate P s.status *
+        (if s.inf.weighted then 1 - s.inf.rejProb ^ k else 1) :=
+  jump_law_rec' P h s hs hpos u hu k hk
+
+/-- **jump law (transmission)** -/
+theorem jump_law_trans (P : GParams) (h : WF P) (s : GState) (hs : Inv P s) (hpos : 0 < totalRate P s)
+    (u v : Node) (huv : (u, v) ∈ s.links.items) (k : Nat) (hk : 0 < k) :
+    Dist.mass (pickDist P s k) (fun o => o == some (GEvent.transmit u v)) =
+      Chain.edgeRate P u v / Chain.totalRate P s.status *
+        (if s.links.weighted then 1 - s.links.rejProb ^ k else 1) :=
+  jump_law_trans' P h s hs hpos u v huv k hk
+
+set_option linter.unusedVariables false in -- `h`, `hs` are not needed
+/-- nothing but enabled events has positive probability -/
+theorem jump_law_support (P : GParams) (h : WF P) (s : GState) (hs : Inv P s) (k : Nat) (e : GEvent)
+    (he : match e with
+          | .recover u => u ∉ s.inf.items
+          | .transmit u v => (u, v) ∉ s.links.items) :
+    Dist.mass (pickDist P s k) (fun o => o == some e) = 0 := by
+  cases e <;> exact jump_law_support' P s k _ he
+
+set_option linter.unusedVariables false in -- `h` is not needed
+/-- the enabled sets of the chain are exactly the candidate lists -/
+theorem enabled_iff (P : GParams) (h : WF P) (s : GState) (hs : Inv P s) :
+    (∀ u, u ∈ Chain.enabledRec P s.status ↔ u ∈ s.inf.items) ∧
+    (∀ p, p ∈ Chain.enabledTrans P s.status ↔ p ∈ s.links.items) :=
+  enabled_iff' P s hs
+
+end Gillespie
+
+/-! non-vacuity: a weighted 4-node path, two initial infecteds, one recovered; `init` succeeds -/
+def exNbrs (u : Node) : List Node :=
+  match u with
+  | 0 => [1] | 1 => [0, 2] | 2 => [1, 3] | 3 => [2] | _ => []
+def exP : GParams :=
+  { nodes := [0, 1, 2, 3], nbrs := exNbrs, tau := 2, gamma := 1,
+    ew := some (fun u v => if u + v = 3 then 1/2 else 2), nw := some (fun u => (u : Rat) + 1), sis := false }
+example : (Gillespie.init exP [1, 3] [0] 0).map (fun s => (s.inf.items, s.links.items, s.links.total))
+    = some ([1, 3], [(1, 2), (3, 2)], 5 / 2) := by decide +kernel
+
+/-- the example network satisfies the well-formedness hypothesis of every theorem above -/
+example : Gillespie.WF exP where
+  nodup := by decide
+  nbr_nodup := by decide
+  nbr_mem := by decide
+  nbr_out := by
+    intro u hu
+    simp only [exP, List.mem_cons, List.not_mem_nil, or_false, not_or] at hu
+    obtain ⟨h0, h1, h2, h3⟩ := hu
+    show exNbrs u = []
+    unfold exNbrs
+    split <;> first | rfl | contradiction
+  symm := by
+    intro u v
+    show v ∈ exNbrs u → u ∈ exNbrs v
+    unfold exNbrs
+    split <;> simp <;> (try rintro (rfl | rfl)) <;> simp
+  noloop := by
+    intro u
+    show u ∉ exNbrs u
+    unfold exNbrs
+    split <;> simp
+  ew_nonneg := by
+    intro f hf u v
+    obtain rfl : (fun u v => if u + v = 3 then (1/2 : Rat) else 2) = f := Option.some.inj hf
+    dsimp only; split <;> decide +kernel
+  ew_symm := by
+    intro f hf u v
+    obtain rfl : (fun u v => if u + v = 3 then (1/2 : Rat) else 2) = f := Option.some.inj hf
+    dsimp only; rw [Nat.add_comm]
+  nw_nonneg := by
+    intro f hf u
+    obtain rfl : (fun u : Node => (u : Rat) + 1) = f := Option.some.inj hf
+    dsimp only
+    have : (0 : Rat) ≤ (u : Rat) := Nat.cast_nonneg u
+    linarith
+  tau_nonneg := by decide +kernel
+  gamma_nonneg := by decide +kernel
+
+/-- ... and the initial state it produces can recover node 1 and transmit along (1,2) without KeyError -/
+example : ((Gillespie.init exP [1, 3] [0] 0).bind fun s => Gillespie.applyRec exP s 1 1).map
+    (fun s => (s.inf.items, s.links.items, s.links.total)) = some ([3], [(3, 2)], 2) := by decide +kernel
+example : ((Gillespie.init exP [1, 3] [0] 0).bind fun s => Gillespie.applyTrans exP s 1 2 1).map
+    (fun s => (s.inf.items, s.links.items, s.links.total)) = some ([1, 3, 2], [], 0) := by decide +kernel
+
